@@ -266,6 +266,61 @@ def gen_file(path, rel):
                           starts, bsrc)[1]
                 emit(pb, ib, "", kind, n)
 
+    # a call taken away: f(x) -> x for one-argument calls of plain names and
+    # x.m() -> x for no-argument string / copy methods ("the call looked
+    # redundant"); a string constant exchanged for a sibling constant of the
+    # same function (the wrong key / the wrong name)
+    annot = set()
+    for n in ast.walk(tree):
+        anns = []
+        if isinstance(n, (ast.arg, ast.AnnAssign)) and \
+                n.annotation is not None:
+            anns.append(n.annotation)
+        if isinstance(n, (ast.FunctionDef, ast.AsyncFunctionDef)) and \
+                n.returns is not None:
+            anns.append(n.returns)
+        for a_ in anns:
+            for x in ast.walk(a_):
+                annot.add(id(x))
+    for n in ast.walk(tree):
+        if not isinstance(n, ast.Call) or id(n) in annot:
+            continue
+        if any(isinstance(a_, ast.Starred) for a_ in n.args) or n.keywords:
+            continue
+        a, b = span(n, starts, bsrc)
+        if isinstance(n.func, ast.Name) and len(n.args) == 1 and \
+                n.func.id not in ("isinstance", "TypeVar", "cast", "len",
+                                  "print", "repr", "id", "type", "iter",
+                                  "super"):
+            xa, xb = span(n.args[0], starts, bsrc)
+            emit(a, b, "(" + bsrc[xa:xb].decode("utf-8") + ")", "unwrap", n)
+        elif isinstance(n.func, ast.Attribute) and not n.args and \
+                n.func.attr in ("strip", "lstrip", "rstrip", "lower", "upper",
+                                "copy", "title", "capitalize"):
+            xa, xb = span(n.func.value, starts, bsrc)
+            emit(a, b, "(" + bsrc[xa:xb].decode("utf-8") + ")", "unwrap", n)
+    QUOTES = ("'", '"')
+    for fn_ in ast.walk(tree):
+        if not isinstance(fn_, (ast.FunctionDef, ast.AsyncFunctionDef)):
+            continue
+        consts = []
+        for x in ast.walk(fn_):
+            if isinstance(x, ast.Constant) and isinstance(x.value, str) \
+                    and not in_docstring(x) and id(x) not in annot and \
+                    re.fullmatch(r"[A-Za-z_][\w:-]{0,24}", x.value):
+                consts.append(x)
+        vals = sorted({x.value for x in consts})
+        if len(vals) < 2:
+            continue
+        for x in consts:
+            a, b = span(x, starts, bsrc)
+            raw = bsrc[a:b].decode("utf-8")
+            if len(raw) < 3 or raw[0] not in QUOTES or raw[1] == raw[0]:
+                continue
+            i = vals.index(x.value)
+            other = vals[(i + 1) % len(vals)]
+            emit(a, b, raw[0] + other + raw[0], "strswap", x)
+
     # string literals: generated-code fragments and regular expressions
     FRAG = [(r" is not ", " is "), (r" is not ", " != "), (r" is ", " == "),
             (r" == ", " != "), (r" != ", " == "), (r" and ", " or "),
